@@ -124,7 +124,9 @@ func GeneratePBBinaryMessage(w io.Writer, m protoreflect.ProtoMessage) error {
 	if m == nil {
 		return fmt.Errorf("module is nil")
 	}
-	bytes, err := proto.Marshal(m)
+	// Deterministic: map entries are written in sorted key order, so the same
+	// module always yields the same bytes.
+	bytes, err := proto.MarshalOptions{Deterministic: true}.Marshal(m)
 	if err != nil {
 		return err
 	}
